@@ -18,6 +18,8 @@ VALUE_POOL = {
     "None": None, "i5": 5, "t": True, "f1": 1.5, "s": "hello", "tup": (1, "a"), "lst": [1, [2, 3]], "d": {"t": "s", "v": 1},
     "dt": dt.datetime(2024, 1, 2, 3, 4, 5, 6, tzinfo=dt.UTC), "date": dt.date(2024, 1, 2), "dec": Decimal("1.10"),
     "u": uuid.UUID(int=7), "b": b"\x00\x01", "e": "", "z": 0, "nest": {"k": [(1, 2), {"x": None}]},
+    # values that compare equal in Python but are different values of the grammar (True == 1, False == 0 == 0.0)
+    "i1": 1, "fl": False, "f0": 0.0,
 }
 TOKENS = sorted(VALUE_POOL)
 
@@ -199,6 +201,8 @@ class Interp:
                         o = check_t[min(attempt - 1, len(check_t) - 1)]
                         if "err" in o:
                             raise type(o["err"]["cls"], (Exception,), {})(o["err"]["msg"])
+                        if o["ok"] == "!set":
+                            return {1, 2}        # a state no serializer accepts (oracle-only scenarios)
                         return VALUE_POOL[o["ok"]]
 
                     def decide(state, attempt, decide_t=decide_t):
@@ -237,7 +241,7 @@ class Interp:
 def run_invocation(script, backend: FakeBackend, plan, seed, schedule=None, limits=None):
     """One invocation of the real wrapper.  Returns dict(out, raised, trace, logs, hung, ...)."""
     limits = limits or {}
-    sim = Sim(schedule=schedule, seed=seed, policy="random", max_points=120000, wall_limit=40, quiesce_limit=100.0)
+    sim = Sim(schedule=schedule, seed=seed, policy="pct" if (seed or 0) % 3 == 0 else "random", max_points=120000, wall_limit=40, quiesce_limit=100.0)
     res = {"trace": [], "logs": []}
     backend.plan = plan
     backend.ticks = 0
@@ -263,6 +267,8 @@ def run_invocation(script, backend: FakeBackend, plan, seed, schedule=None, limi
             # payload size limits: the invocation payload may carry no operations at all, only a marker
             # (execution.py:72-80 documents this)
             pages = [[]] + pages
+        if plan.get("mid_empty") and len(pages) >= 2:
+            pages = pages[:1] + [[]] + pages[1:]      # AWS-style pagination may return an empty page that still has a marker
         backend._pages = pages
         orig_cc = ExecutionState.create_checkpoint
         saved_limit = childmod.CHECKPOINT_SIZE_LIMIT
